@@ -112,6 +112,8 @@ def setup():
     from term_image.exceptions import UrwidImageError as _E
 
     env, I, W, urwid, VT, UrwidImageError = _env, _I, _W, _urwid, _VT, _E
+    global SubImage
+    SubImage = type("SubImage", (_W.UrwidImage,), {})
     _urwid.set_encoding("utf-8")
     # diagnosis only: count the calls that change the hidden per-line "disguise" text (the originals still run)
     orig_w = _W.UrwidImage._ti_change_disguise
@@ -306,6 +308,7 @@ def widget_spec(styles=("kitty", "kitty", "kitty", "iterm2", "iterm2", "block"))
         "style": st.sampled_from(list(styles)),
         "img": gen.still_image(max_w=6, max_h=6, modes=["RGB", "RGBA", "L", "P"]),
         "upscale": st.booleans(),
+        "sub": st.sampled_from([False, False, True]),  # instance of an application subclass of UrwidImage
         "fmt": st.sampled_from(["", "", "<", ">", ".^", "._", "<.^", ">._"]),
         # style-specific part of the format spec (graphics styles only; LINES is needed for trimming)
         "sfmt": st.sampled_from(["", "", "+L", "+L", "+Lc1", "+Lm1"]),
@@ -386,6 +389,17 @@ def histories(draw, any_top=False, explicit_clear=False, lifecycle=False):
 
 # ============================================================================================ execution
 
+SubImage = None  # an application subclass of UrwidImage (created in setup()); the z-index space is per terminal, not per class
+
+
+def _reset_z(preset=1):
+    for k in ("_ti_next_z_index", "_ti_free_z_indexes"):
+        if k in vars(SubImage):
+            delattr(SubImage, k)
+    W.UrwidImage._ti_free_z_indexes.clear()
+    W.UrwidImage._ti_next_z_index = preset
+
+
 def make_widget(spec, force):
     style = spec["style"]
     if style == "kitty" and not (force or I.KittyImage.is_supported()):
@@ -393,7 +407,8 @@ def make_widget(spec, force):
     cls = {"kitty": I.KittyImage, "iterm2": I.ITerm2Image, "block": I.BlockImage}[style]
     image = cls(gen.build_image(spec["img"]))
     fmt = spec["fmt"] + (spec.get("sfmt", "") if style != "block" else "")
-    return W.UrwidImage(image, fmt, upscale=spec["upscale"]), style
+    wcls = SubImage if spec.get("sub") else W.UrwidImage
+    return wcls(image, fmt, upscale=spec["upscale"]), style
 
 
 def build(node, ctx, pool):
@@ -483,8 +498,7 @@ class Lab:
         collect_and_freeze()
         retire_prior()
         # class-level state of the code under test back to its import-time value
-        W.UrwidImage._ti_free_z_indexes.clear()
-        W.UrwidImage._ti_next_z_index = 1
+        _reset_z()
         W.UrwidImageCanvas._ti_disguise_state = 0
         BUMPS.clear()
         name, version = case["ident"]
@@ -934,7 +948,7 @@ Z_PRESETS = [1, 2, -2, 2**31 - 2, -(2**31 - 2), 2**31 - 1, -(2**31 - 1), 2**31]
 def z_cases():
     op = st.one_of(
         st.just({"op": "new", "style": "kitty"}), st.just({"op": "new", "style": "kitty"}),
-        st.just({"op": "new", "style": "kitty"}),
+        st.just({"op": "new", "style": "kitty", "sub": True}),
         st.sampled_from(["block", "iterm2"]).map(lambda s: {"op": "new", "style": s}),
         st.integers(0, 9).map(lambda i: {"op": "del", "i": i}), st.integers(0, 9).map(lambda i: {"op": "del", "i": i}),
         st.just({"op": "gc"}),
@@ -955,8 +969,7 @@ def check_z_index(case, rec):
     retire_prior()
     name, version = case["ident"]
     env.apply(name=name, version=version)
-    W.UrwidImage._ti_free_z_indexes.clear()
-    W.UrwidImage._ti_next_z_index = case["preset"]
+    _reset_z(case["preset"])
     model = RU.ZAllocModel(case["preset"])
     pil = Image.new("RGB", (2, 2), (10, 20, 30))
     widgets = []  # [widget or None, z or None]
@@ -969,12 +982,14 @@ def check_z_index(case, rec):
     for o in case["ops"]:
         k = o["op"]
         if k == "new":
-            kinds.append("new:" + o["style"])
+            kinds.append("new:" + o["style"] + ("(subclass)" if o.get("sub") else ""))
             cls = {"kitty": I.KittyImage, "iterm2": I.ITerm2Image, "block": I.BlockImage}[o["style"]]
             image = cls(pil)
             expect_ok = o["style"] != "kitty" or model.can_alloc()
             try:
-                w = W.UrwidImage(image)
+                w = (SubImage if o.get("sub") else W.UrwidImage)(image)
+                if o.get("sub"):
+                    flags.add("subclass")
             except UrwidImageError as e:
                 if expect_ok:
                     fail(f"UrwidImage() raised UrwidImageError ({e}) although only {len(model.live)} kitty widgets are alive "
